@@ -73,7 +73,7 @@ fn msg_spec() -> impl Strategy<Value = MsgSpec> {
 fn to_sv(v: &[(u64, u32)]) -> StateVector {
     let mut sv = StateVector::default();
     for (c, k) in v {
-        sv.set_max(ClientID::new(*c), *k);
+        sv.set_max(ClientID::new(*c & ((1 << 53) - 1)), *k);
     }
     sv
 }
@@ -88,11 +88,12 @@ fn to_msg(m: &MsgSpec) -> Message {
         MsgSpec::Awareness(v) => {
             let mut clients = HashMap::new();
             for (c, k, j) in v {
-                clients.insert(ClientID::new(*c), AwarenessUpdateEntry { clock: *k, json: Arc::from(j.as_str()) });
+                clients.insert(ClientID::new(*c & ((1 << 53) - 1)), AwarenessUpdateEntry { clock: *k, json: Arc::from(j.as_str()) });
             }
             Message::Awareness(AwarenessUpdate { clients })
         }
-        MsgSpec::Custom(t, d) => Message::Custom(*t, d.clone()),
+        // (tags 0..3 belong to the protocol itself)
+        MsgSpec::Custom(t, d) => Message::Custom((*t).max(4), d.clone()),
     }
 }
 
@@ -180,7 +181,8 @@ impl Prop for Values {
         // delete set + snapshot
         let mut ds = IdSet::new();
         for (c, k, l) in case.ds.iter() {
-            ds.insert(ID::new(ClientID::new(*c), *k / 2), *l);
+            // (preconditions of the constructors: client ids below 2^53, clock + len within u32)
+            ds.insert(ID::new(ClientID::new(*c & ((1 << 53) - 1)), *k / 2), (*l).min(u32::MAX - *k / 2));
         }
         let snap = Snapshot::new(sv.clone(), ds.clone());
         for v2 in [false, true] {
@@ -194,8 +196,8 @@ impl Prop for Values {
         // sticky index: binary and serde JSON
         let (kind, c, k, name, before) = &case.sticky;
         let scope = match kind % 3 {
-            0 => IndexScope::Relative(ID::new(ClientID::new(*c), *k)),
-            1 => IndexScope::Nested(ID::new(ClientID::new(*c), *k)),
+            0 => IndexScope::Relative(ID::new(ClientID::new(*c & ((1 << 53) - 1)), *k)),
+            1 => IndexScope::Nested(ID::new(ClientID::new(*c & ((1 << 53) - 1)), *k)),
             _ => IndexScope::Root(Arc::from(name.as_str())),
         };
         let si = StickyIndex::new(scope, if *before { Assoc::Before } else { Assoc::After });
